@@ -317,7 +317,7 @@ impl Property for P {
     fn cases(tier: Tier) -> u64 {
         match tier {
             Tier::Quick => 40_000,
-            Tier::Thorough => 300_000,
+            Tier::Thorough => 1_500_000,
         }
     }
     fn strategy(_tier: Tier) -> BoxedStrategy<Case> {
